@@ -141,6 +141,7 @@ def evaluate(art, work, prog, plan, **kw):
         if len(logs) != len(exp_logs) and not any(f[0] == "argument" for f in fails):
             fails.append(("calls", "Rust logged %d invocations for %d calls" % (len(logs), len(exp_logs))))
         fails += e2e.callback_fails(prog, plan, lines)
+        fails += e2e.drop_fails(prog, plan, lines)
         for mid, cs in csize.items():
             if mid in rsize and rsize[mid] != cs:
                 fails.append(("layout", "method %s: C's result/option type has size %s, the type the proc macro returns has size %s" % (mid, cs, rsize[mid])))
